@@ -108,7 +108,7 @@ CHECKS = {
         'language by a fresh translator; the text is tokenized and scanned for class headers, val/var/def declarations with '
         'or without a type, fun/def declarations with or without a result type, constructor calls with/without type '
         'arguments, string literals and bracket balance, and compared per name (multisets) with an inventory computed from '
-        'the IR by a reflective walker. Couples C03/C04 to the text: an erased annotation must be absent, a carried one present. Additionally every program of a hand-built program family (mc/progfam.py: 1 530 skeletons x language built through the real IR constructors -- generic calls fixed only by the expected type, constructors whose parameter occurs in no argument, constructor calls in receiver position, nested generic arguments, wider declared types, conditionals) (quick: one per initializer) is explored with every alternative of the overwriting mutation; Groovy local functions are compared as closure variables (def iff no result type).',
+        'the IR by a reflective walker. Couples C03/C04 to the text: an erased annotation must be absent, a carried one present. Additionally every program of a hand-built program family (mc/progfam.py: 1 530 skeletons x language built through the real IR constructors -- generic calls fixed only by the expected type, constructors whose parameter occurs in no argument, constructor calls in receiver position, nested generic arguments, wider declared types, conditionals) (quick: one per initializer, thorough: the core subset) is explored with every alternative of the overwriting mutation; Groovy local functions are compared as closure variables (def iff no result type).',
    note=CTE_NOTE + ' Scanners cover: balance, classes and strings (all languages); variable/result typing (Kotlin, Scala, '
         'Groovy def, Java var); constructor type arguments (all). Method/parameter/modifier inventories are not scanned.',
    technique='stateless choice-tree exploration with per-language text scanners compared against an independent IR inventory'),
